@@ -94,6 +94,9 @@ inductive GOp where
   | stash
   /-- `pre_send` of the `i`-th waiting exchange: the value goes on the wire -/
   | use (i : Nat)
+  /-- `initiate_group` fails AFTER its store (`initiate_for_session(..)?`: no free exchange slot):
+  the reservation is dropped, the value is never used -/
+  | abandon
   /-- `mcsp.rs`: `get_or_init_global_group_data_ctr` (reports the counter, seeds it on first use) -/
   | peek (rand : Nat)
   /-- power loss + start-up -/
@@ -122,6 +125,10 @@ def gStep (s : GSys) : GOp → GSys
     match s.ready[i]? with
     | some v => { s with ready := s.ready.eraseIdx i, used := v :: s.used }
     | none => s
+  | .abandon =>
+    match s.inflight with
+    | some (_, none) => { s with inflight := none }
+    | _ => s
   | .peek rand => { s with vol := s.vol.getOrInit rand }
   | .crash => { s with vol := GVol.load s.durable, inflight := none, ready := [] }
 
